@@ -187,7 +187,7 @@ def audit(prop_mod):
     rc, out, err, dt = sh(['lake', 'env', 'lean', af], cwd=LEAN)
     axioms = {}
     txt = out + err
-    for m in re.finditer(r"'([^']+)' (does not depend on any axioms|depends on axioms: \[([^\]]*)\])", txt, re.S):
+    for m in re.finditer(r"'(\S+)' (does not depend on any axioms|depends on axioms: \[([^\]]*)\])", txt, re.S):
         ax = set() if m.group(3) is None else {a.strip() for a in m.group(3).replace('\n', ' ').split(',') if a.strip()}
         axioms[m.group(1)] = sorted(ax)
     discharged = 0
@@ -745,6 +745,8 @@ def cmp_line(req, impl, model, cls=None):
     # links are ordered arbitrarily
     if op in UNORDERED_OPS and io == mo and io.startswith('err'):
         return 'dead'     # same error, but which entries were processed before it depends on the set order
+    if op in ('copy', 'copy_b') and io.startswith('err') and mo.startswith('err'):
+        return 'dead'     # a tree copy that fails: WHICH entry fails first (and with which kind) depends on the set order
     if op in UNORDERED_OPS and 'LinkLooping' in io and 'LinkLooping' in mo:
         return 'dead'
     a = req.split(' ')
